@@ -31,12 +31,12 @@ def run(ctx: Ctx, env):
     tm = repo.modules.get(TYPING)
     if tm is None:
         raise AnalysisError("odata_query/typing.py not found")
+    found = {}
     for fn in ("infer_type", "infer_return_type", "typecheck"):
-        if fn not in tm.functions:
+        found[fn] = repo.function(TYPING, fn)  # defined in typing.py or re-exported from a private module
+        if found[fn] is None:
             raise AnalysisError(f"typing.{fn} not found", tm.rel)
-    irt = tm.functions["infer_return_type"]
-    it_fn = tm.functions["infer_type"]
-    tc_fn = tm.functions["typecheck"]
+    (irt_m, irt), (it_m, it_fn), (tc_m, tc_fn) = found["infer_return_type"], found["infer_type"], found["typecheck"]
 
     # ---- R1 infer_return_type on the name grid ---------------------------------------------------------------
     names: List[Tuple[Tuple[str, ...], str]] = []
@@ -49,16 +49,18 @@ def run(ctx: Ctx, env):
         else:
             names.append((("geo",), nm))
     names += [((), "unknownfunction"), (("a", "b"), "length")]
-    n_rows = _name_grid(ctx, env, tm, irt, names, "R1.return-type", "infer_return_type")
+    n_rows = _name_grid(ctx, env, (irt_m, irt), (it_m, it_fn), names, "R1.return-type", "infer_return_type")
     # infer_type applied to a call must give the very same answers (however it gets them: by delegating or by its own table)
-    _name_grid(ctx, env, tm, it_fn, names, "R2.infer-type-of-call", "infer_type")
+    _name_grid(ctx, env, (it_m, it_fn), (it_m, it_fn), names, "R2.infer-type-of-call", "infer_type")
     ctx.floor("function names evaluated", n_rows, 100)
-    _rest(ctx, env, tm, it_fn, tc_fn)
+    _rest(ctx, env, (it_m, it_fn), (tc_m, tc_fn), f"{irt_m.name}.{irt.name}")
 
 
-def _name_grid(ctx: Ctx, env, tm, entry, names, rule: str, entry_name: str) -> int:
+def _name_grid(ctx: Ctx, env, entry_mf, it_mf, names, rule: str, entry_name: str) -> int:
     repo, schema = env.repo, env.schema
-    irt = entry
+    tm, irt = entry_mf
+    it_m, it_fn = it_mf
+    it_q = f"{it_m.name}.{it_fn.name}"  # the name the interpreter knows infer_type by: that of the module defining it
     seen = set()
     n_rows = 0
     for ns, nm in names:
@@ -69,16 +71,16 @@ def _name_grid(ctx: Ctx, env, tm, entry, names, rule: str, entry_name: str) -> i
         arity = O.ODATA_FUNCTION_ARITY.get(full)
         nargs = arity[0] if arity else 2
         interp = Interp(repo, schema, env.kindflow.kinds)
-        it_fn_ = tm.functions["infer_type"]
+        it_fn_ = it_fn
 
         # the call's arguments are opaque: asking for their type is answered by a stub that records the question; any other
         # use of infer_type (on the call node itself, when infer_type is the entry) is evaluated for real
         def arg_stub(it, a, kw, it_fn_=it_fn_):
             if a and isinstance(a[0], NodeV) and a[0].path.startswith("args["):
                 return Sym("call", RefV(TYPING + ".infer_type"), (a[0],), ())
-            return it.call_function(tm, it_fn_, list(a), dict(kw), None)
+            return it.call_function(it_m, it_fn_, list(a), dict(kw), None)
 
-        interp.func_overrides = {TYPING + ".infer_type": arg_stub}
+        interp.func_overrides = {it_q: arg_stub}
 
         def setup(it, ns=ns, nm=nm, nargs=nargs):
             func = NewNode("Identifier", {"name": Const(nm), "namespace": Const(tuple(ns))}, "grid")
@@ -128,8 +130,11 @@ def _name_grid(ctx: Ctx, env, tm, entry, names, rule: str, entry_name: str) -> i
     return n_rows
 
 
-def _rest(ctx: Ctx, env, tm, it_fn, tc_fn):
+def _rest(ctx: Ctx, env, it_mf, tc_mf, irt_q: str):
     repo, schema = env.repo, env.schema
+    tm, it_fn = it_mf
+    tc_m, tc_fn = tc_mf
+    it_q = f"{tm.name}.{it_fn.name}"
     # ---- R2 infer_type per node class ---------------------------------------------------------------------------
     kenv = KindEnv(schema)
     cases: List[Tuple[str, Optional[str]]] = []
@@ -143,7 +148,7 @@ def _rest(ctx: Ctx, env, tm, it_fn, tc_fn):
     for kind, discr in cases:
         if kind == "Call":
             continue  # decided per function name by the grid above (R2.infer-type-of-call)
-        interp = Interp(repo, schema, kenv, opaque_funcs=(TYPING + ".infer_return_type",))
+        interp = Interp(repo, schema, kenv, opaque_funcs=(irt_q,))
 
         def setup(it, kind=kind, discr=discr):
             node = NodeV("node", {kind})
@@ -191,10 +196,10 @@ def _rest(ctx: Ctx, env, tm, it_fn, tc_fn):
         for actual in actuals:
             n_grid += 1
             interp = Interp(repo, schema, kenv)
-            interp.func_overrides = {TYPING + ".infer_type": (lambda it, args, kw, actual=actual: NONE if actual is None else T(actual))}
+            interp.func_overrides = {it_q: (lambda it, args, kw, actual=actual: NONE if actual is None else T(actual))}
 
             def setup(it, evalue=evalue):
-                return tm, tc_fn, [NodeV("node", set(schema.concrete())), evalue, Const("field")], {}, None
+                return tc_m, tc_fn, [NodeV("node", set(schema.concrete())), evalue, Const("field")], {}, None
 
             paths = interp.explore(setup)
             key = f"{ename}|{actual}"
@@ -210,7 +215,7 @@ def _rest(ctx: Ctx, env, tm, it_fn, tc_fn):
                     ok = False
                     ctx.fail("R3.typecheck", key, f"typecheck(expected={sorted(allowed)}, inferred={actual}) "
                              f"{'raises ' + repr(x.value) if x.outcome == 'raise' else 'accepts'}; it must "
-                             f"{'raise ArgumentTypeException' if should_raise else 'accept'}", tm.loc(tc_fn),
+                             f"{'raise ArgumentTypeException' if should_raise else 'accept'}", tc_m.loc(tc_fn),
                              "contains(name, 5)" if should_raise else "contains(name, 'x')")
                     break
             if ok:
